@@ -526,14 +526,17 @@ def run_case(case, forced, mode):
 
 def explore(res, case, P, mode, budget, rng=None, part=None):
     """iterative context bounding by prefix replay; exhaustive within P unless the budget runs out"""
-    stack = [({}, 0)]
+    import heapq
+    # schedules with fewer preemptions first: a per-program budget that runs out has then cut the deepest schedules only
+    stack = [(0, 0.0, 0, {})]
+    tick = 0
     executed = 0
     exhaustive = True
     while stack:
         if executed >= budget:
             exhaustive = False
             break
-        forced, used = stack.pop()
+        used, _, _, forced = heapq.heappop(stack)
         sch, viol, mon, ok = run_case(case, forced, mode)
         executed += 1
         res.count("schedules_executed")
@@ -581,9 +584,9 @@ def explore(res, case, P, mode, budget, rng=None, part=None):
             # the exploration of one program split over several shards: by the first forced decision
             j, k = part
             children = [c for ci, c in enumerate(children) if ci % k == j]
-        if rng is not None:
-            rng.shuffle(children)
-        stack.extend(children)
+        for f_, u_ in children:
+            tick += 1
+            heapq.heappush(stack, (u_, rng.random() if rng is not None else 0.0, tick, f_))
     return executed, exhaustive
 
 
